@@ -216,8 +216,13 @@ def _changed(snap):
         return changed(snap)
 
 
+SIBLING = {'yaml_constructors': 'yaml_multi_constructors', 'yaml_multi_constructors': 'yaml_constructors',
+           'yaml_representers': 'yaml_multi_representers', 'yaml_multi_representers': 'yaml_representers',
+           'yaml_implicit_resolvers': 'yaml_path_resolvers', 'yaml_path_resolvers': 'yaml_implicit_resolvers'}
+
+
 def step(root_i: int, side: int, kind_i: int, ownA: bool, ownB: bool, ownC: bool, tgt: int,
-         tag_i: int, nfirst: int, c1_i: int, c2_i: int) -> str:
+         tag_i: int, nfirst: int, c1_i: int, c2_i: int, xown: int) -> str:
     """side 0: loader roots, side 1: dumper roots.  kind_i indexes the 4 table kinds of that side.
     Registered keys are chosen among an already present key, a fresh one, a core tag and the
     empty string (inserting a symbolic str into a real dict would hash, i.e. realise, it)."""
@@ -236,6 +241,10 @@ def step(root_i: int, side: int, kind_i: int, ownA: bool, ownB: bool, ownC: bool
             pre_register(kind, classes[2], is_loader)
         if ownC:
             pre_register(kind, classes[3], is_loader)
+        # cross-kind pre-state: one lattice class already owns a table of the *sibling* kind
+        # (e.g. multi-constructors when the operation is add_constructor)
+        if xown >= 1:
+            pre_register(SIBLING[kind], pick(xown - 1, classes), is_loader)
         ch = _changed(snap)
         if ch:
             return 'PRE-STATE registration on a lattice class changed shipped ' + ch
@@ -502,12 +511,12 @@ def jobs(tier):
                 kinds = LOADER_KINDS if side == 0 else DUMPER_KINDS
                 for nf in ((0, 1, 2) if ki == 2 else (None,)):
                     js.append(Job('step/%s/%s%s' % (r.__name__, kinds[ki][5:], '' if nf is None else '/first%d' % nf), step,
-                                  [lambda root_i, side, kind_i, ownA, ownB, ownC, tgt, tag_i, nfirst, c1_i, c2_i, _s=side, _r=ri, _k=ki, _nf=nf:
-                                   root_i == _r and side == _s and kind_i == _k and 0 <= tgt <= 3 and 0 <= tag_i <= (NT if _k >= 2 else 3) and
+                                  [lambda root_i, side, kind_i, ownA, ownB, ownC, tgt, tag_i, nfirst, c1_i, c2_i, xown, _s=side, _r=ri, _k=ki, _nf=nf:
+                                   ((xown == 0 or xown == tgt + 1) if q else 0 <= xown <= 4) and root_i == _r and side == _s and kind_i == _k and 0 <= tgt <= 3 and 0 <= tag_i <= (NT if _k >= 2 else 3) and
                                    (nfirst == _nf if _nf is not None else 0 <= nfirst <= (NK if _k == 3 else 1)) and
                                    0 <= c1_i <= (NC if (_k == 3 or (_k == 2 and nfirst >= 1)) else 0) and
                                    0 <= c2_i <= (NC if (_k == 2 and nfirst == 2) else 0)],
-                                  budget=150, bounds='root %s, table %s, 3 ownership bits, 4 targets, keys {present, fresh, core, empty}, first-character lists of 0..2 chars' % (r.__name__, kinds[ki])))
+                                  budget=150, bounds='root %s, table %s, 3 ownership bits + sibling-kind ownership by one of 4 classes, 4 targets, keys {present, fresh, core, empty}, first-character lists of 0..2 chars' % (r.__name__, kinds[ki])))
     for ri, r in enumerate(LOADER_ROOTS):
         js.append(Job('yamlobject/%s' % r.__name__, subclass_and_yamlobject,
                       [lambda root_i, ownA, tgt, tag_i, as_list, dtgt, _r=ri: root_i == _r and 0 <= tgt <= 3 and 0 <= dtgt <= 3 and 0 <= tag_i <= 3],
